@@ -73,10 +73,10 @@ Fixpoint dec_ents (s : sexp) : option (ptd * list (Z * Z)) :=
 
 Definition dec_block (s : sexp) : option (block * list (Z * Z)) :=
   match s with
-  | SL [SZ target; inp; usd; sd; man; _; ents] =>
-      match dec_opt dec_bool inp, dec_bool usd, dec_bool sd, dec_bool man, dec_ents ents with
-      | Some inp, Some usd, Some sd, Some man, Some (t, vs) => Some (mkBlock target inp usd sd man t, vs)
-      | _, _, _, _, _ => None
+  | SL [SZ target; inp; usd; sd; man; live; ents] =>
+      match dec_opt dec_bool inp, dec_bool usd, dec_bool sd, dec_bool man, dec_bool live, dec_ents ents with
+      | Some inp, Some usd, Some sd, Some man, Some live, Some (t, vs) => Some (mkBlock target inp usd sd man live t, vs)
+      | _, _, _, _, _, _ => None
       end
   | _ => None
   end.
@@ -152,7 +152,11 @@ Fixpoint run_ops_trace (st : tstate) (s : tdparams) (ops : list pop) : list sexp
       SL [enc_bool raised; enc_reg st (tp_params s'); enc_reg st (tp_bufs s'); enc_ptd st (tp_td s')] :: run_ops_trace st s' r
   end.
 
-Definition build_vals (l : list (Z * Z)) : list (Z * Z) := fold_left (fun d e => z_set d (fst e) (snd e)) l [].
+(* content of the storages at the start: the first description of a storage wins (the module's initial snapshot comes
+   first; a source tensordict built later as a temporary is described when it is built, possibly after in-place writes
+   to a storage it shares with an object already known) *)
+Definition build_vals (l : list (Z * Z)) : list (Z * Z) :=
+  fold_left (fun d e => match z_get d (fst e) with Some _ => d | None => z_set d (fst e) (snd e) end) l [].
 
 Definition dispatch (cmd : string) (args : list sexp) : option sexp :=
   match cmd, args with
